@@ -2,18 +2,20 @@
 from __future__ import annotations
 
 import asyncio
+import base64
 import functools
 import itertools
 import json
 import random
 import re
 import struct
+from unittest import mock
 from unittest.mock import MagicMock
 
 from cryptography.exceptions import InvalidTag
 from cryptography.hazmat.primitives.ciphers.aead import ChaCha20Poly1305
 
-from harness import simnet
+from harness import refacc, simnet
 from harness.acc import Accessory, http
 from harness.common import Ctx, Driver, compare_with_model, load_corpus, shrink_list
 from harness.rcsim import settle
@@ -39,9 +41,24 @@ RULE = ("histories on the simulated network (unpatched IpPairing against a scaff
         "MANY SUBSCRIPTIONS (streams many-subscriptions / overlap-many-subscriptions): 40..120 characteristics of one accessory id plus some of others, subscribed a few at a time, all in one call, or while disconnected, with unsubscriptions of ranges, refused "
         "characteristics (multi-status answers of several frames) and events for up to 30 characteristics in between, then 1..3 disconnect/reconnect cycles: the subscription / re-subscription requests span up to 4 encrypted frames; the scaffold accessory "
         "authenticates every frame under its own per-frame counter and ends the session when one fails, as a conformant accessory does. "
+        "THE PAIRING'S ACCESSORY DATABASE vs. WHAT THE ACCESSORY SENDS EVENTS FOR (token `db:`, streams database-directed / database-random): the database absent, loaded from the controller's characteristic cache at construction, by "
+        "restore_accessories_state, by list_accessories_and_characteristics / async_populate_accessories_state against the accessory - before the connection, while connected and subscribed, replaced between two bursts; complete, typed "
+        "(bool / uint8..64 / int / float / string / tlv8 / data), OUTDATED (an accessory id it does not know: bridged later; a known accessory without the service; single instance ids missing), foreign, listing no accessory; bursts in which "
+        "the unknown characteristic comes first / in the middle / last / alone / in one EVENT message with a known one, and event values of every JSON type (string, bool, float, null, negative, > 32 bit, base64, empty string) against whatever "
+        "format is on record. "
+        "EVERY TRANSPORT THAT HAS AN EVENT PATH (implementation-level oracles from the harness's own record of what the accessory sent): stream coap - the unpatched CoAPPairing / CoAPHomeKitConnection / EncryptionContext / EventResource with only "
+        "aiocoap's Context replaced, against the harness's accessory (real pair-verify, PDUs sealed under the session keys, database encoded by the harness): event notifications of 1..6 records, values of every format and of 0..700 bytes (TLV "
+        "fragments), the EMPTY value (a record that is just its header) and the zero-length value at EVERY position, several notifications in a row, retransmitted and foreign notifications (delivered never), characteristics added after the "
+        "controller read the database, the pairing-level database absent / fetched / restored incomplete, every listener kind, accessory reboots (4.04) followed by the re-subscription of the next call; stream ble-broadcast - the unpatched "
+        "BleController / BlePairing loaded from a characteristic cache (database, state number, broadcast key), advertisements handed to the scanner's detection callback: encrypted broadcast notifications heard 1..7 times each (ONE event), heard "
+        "again late, state-number gaps up to 90 (broadcasts nobody heard), regular advertisements in between, broadcasts not sealed under the accessory's key; stream ble-gatt - BlePairing connected through a GATT link stand-in (real pair-verify, "
+        "sealed HAP-BLE PDUs with fragmentation): subscribe before / after the connection, zero-length indications singly and in bursts of 2..3 (the library may fold a burst: 1..n deliveries, the last one carrying the value the accessory holds), "
+        "link losses followed by a reconnecting call: 3 s later indications must be enabled again for every subscription. "
         "non-trivial = distinct history")
 TRUSTED = ["harness/simnet.py virtual-time loop and in-memory transport", "harness/acc.py scaffold accessory: per-session record of ev registrations from PUT /characteristics",
-           "cryptography's ChaCha20Poly1305 in the scaffold accessory: whether a frame of the controller authenticates under the accessory's own per-frame counter", "orjson parses the event bodies", "aiohomekit.hkjson.loads, called by the harness on the body it sends, decides whether a lenient body is an event (the library's documented JSON dialect); what the event then means is the harness's own construction"]
+           "cryptography's ChaCha20Poly1305 in the scaffold accessory: whether a frame of the controller authenticates under the accessory's own per-frame counter", "orjson parses the event bodies", "aiohomekit.hkjson.loads, called by the harness on the body it sends, decides whether a lenient body is an event (the library's documented JSON dialect); what the event then means is the harness's own construction",
+           "harness/refacc.py pair-verify accessory and cryptography's ChaCha20Poly1305 / X25519 / Ed25519 in the CoAP and BLE accessories of the harness; the TLV8 / HAP-PDU / advertisement encoders written in harness/c12.py (t8, coap_database, sealed)",
+           "whether the CoAP controller's copy of the database knows an instance id (Pdu09Database.find_characteristic_by_iid) only decides whether the VALUE a listener is handed is compared - the key, count and order always are"]
 ASSUMPTIONS = ["one model event = one harness action followed by running the loop to quiescence",
                "a subscribe issued while disconnected is left to run out its 10 s pairing-level wait before the next action (so it cannot overlap a later reconnect)",
                "reconnection is refused by the simulated network until the explicit reconnect event; no request of the accessory is answered with a per-characteristic error status",
@@ -50,7 +67,11 @@ ASSUMPTIONS = ["one model event = one harness action followed by running the loo
                "iff every call touching it that can be last in some order consistent with issue/return times is a subscribe; an unsubscribe that raised still counts as a possible remover; the accessory answers in arrival order (the library sends one request at a time); "
                "an answer withheld for 30 s of virtual time counts as a disconnection (the library's request timeout)",
                "a disconnection that exempts the fall-back to polling is one the NETWORK (the harness) performs; the accessory ending a session because a frame of the controller does not authenticate is not one (reported as request-not-authentic, "
-               "and the fall-back that follows as fallback-without-cut); chunked messages carry no chunk extensions and no trailers; the value of Transfer-Encoding is spelled `chunked`"]
+               "and the fall-back that follows as fallback-without-cut); chunked messages carry no chunk extensions and no trailers; the value of Transfer-Encoding is spelled `chunked`",
+               "CoAP / BLE streams: one accessory id (1) - HAP over CoAP and BLE address characteristics by instance id only; the accessory's values have the length of the format it announced (a characteristic whose FORMAT changed after the controller read the "
+               "database is an ungated probe, see notes); an EMPTY CoAP record and data / tlv8 values are checked for key, count and order only; BLE broadcasts: state numbers stay below the 16-bit roll-over and within the library's look-ahead "
+               "of 98 state numbers (beyond it the library deliberately polls instead, which needs a connection); BLE indications are hints to read: a burst of n may be delivered as 1..n events; 'listeners are told the connection is back' is "
+               "asserted on IP only (the other transports have an availability callback instead)"]
 EXPLANATION = ("Lean theorems C12_* over the subscription/listener automaton HapVerif.Subs (wanted set changes only by subscribe/unsubscribe; after every connect the registered set covers the wanted set unless the polling fallback was entered, "
                "and every listener is told; each delivery calls every listener of the snapshot exactly once, bursts in order; raising/unregistering/registering listeners do not affect the others or the connection; junk bodies deliver nothing) "
                "+ differential tie on the accessory's per-session registrations and every listener's call log")
@@ -106,6 +127,9 @@ def show_chs(cs):
 # hard-wired: event_keys() asks hkjson.loads about the very bytes that are sent.
 LENIENT = ("tc", "tco", "cm", "hc", "ws", "mix", "ord", "uni", "unitc", "big", "bigtc")
 NEARJSON = ("blk", "sq", "dc", "lead", "nan", "trunc", "two")
+# strict JSON bodies whose value is of another JSON type than the event number: string, bool, float, null, negative, beyond 32 bit, base64 (what a
+# data / tlv8 characteristic reports), the empty string - whatever format the pairing's cached accessory database has on record for the characteristic
+VALUES = ("vs", "vb", "vf", "vn", "vneg", "vhuge", "vx", "ve")
 
 
 def event_value(dialect, n):
@@ -114,6 +138,8 @@ def event_value(dialect, n):
         return f"\u00e9\u4e2d\u2603 {n}"
     if dialect in ("big", "bigtc"):
         return f"{n}-" + "x" * 1500   # the EVENT message spans more than one 1024-byte encrypted frame
+    if dialect in VALUES:
+        return {"vs": f"v{n}", "vb": bool(n % 2), "vf": n + 0.5, "vn": None, "vneg": -n, "vhuge": 2 ** 40 + n, "vx": base64.b64encode(b"\x01\x02%d" % n).decode(), "ve": ""}[dialect]
     return n
 
 
@@ -148,7 +174,7 @@ def body_bytes(b, n=1):
         t = '// ev\n{ "characteristics" : [\n' + "".join("  " + x + ", # item\n" for x in items) + "  ],\n}\n"
     elif dialect == "ord":                       # strict JSON, other key order, extra members
         t = '{"extra":null,"characteristics":[' + ",".join(f'{{"iid":{i},"value":{v},"status":0,"aid":{a}}}' for a, i in keys) + "]}"
-    elif dialect in ("uni", "big"):              # strict JSON with non-ASCII / long string values
+    elif dialect in ("uni", "big") or dialect in VALUES:   # strict JSON with non-ASCII / long string values / values of another JSON type
         t = strict
     elif dialect == "blk":
         t = "/* event */" + strict
@@ -419,6 +445,57 @@ def unauth_problem(acc):
     return out
 
 
+# ---------------------------------------------------------------------------------------------------------------
+# the pairing's cached accessory database (history token `db:<how>:<entries>`; not an event of the history - like `wire:` it changes what is
+# there, and the next events meet it).  entries: `1.10~bool,1.11,2.20-22~string` characteristics with their format (default `int`), a bare `2` an
+# accessory id of which only the accessory-information service is known, `-` a database that lists no accessory at all.  how:
+#   cache     the controller's characteristic cache holds it when the pairing is constructed (only as the first token; later: as restore)
+#   restore   restore_accessories_state() - what Home Assistant does at start-up
+#   fetch     list_accessories_and_characteristics() against the accessory, which serves exactly this database (connected only; else as restore)
+#   populate  async_populate_accessories_state(force_update=True), the same way
+# What the accessory sends events for is NOT bound to it: the database may be absent, complete, or outdated (a bridged accessory added later, a
+# service added by a firmware update, a characteristic whose format changed).
+
+DB_FORMATS = ("bool", "uint8", "uint16", "uint32", "uint64", "int", "float", "string", "tlv8", "data")
+DB_TYPES = {"bool": "25", "uint8": "8", "uint16": "CE", "uint32": "0000FF32-0000-1000-8000-0026BB765291", "uint64": "0000FF64-0000-1000-8000-0026BB765291", "int": "13", "float": "11",
+            "string": "0000FF19-0000-1000-8000-0026BB765291", "tlv8": "0000FF1B-0000-1000-8000-0026BB765291", "data": "0000FF1C-0000-1000-8000-0026BB765291"}
+
+
+def parse_db(spec):
+    """'1.10~bool,1.11,2' -> {1: [(10, 'bool'), (11, 'int')], 2: []}; '-' -> {}"""
+    out = {}
+    if spec in ("-", ""):
+        return out
+    for e in spec.split(","):
+        e, _, fmt = e.partition("~")
+        if "." not in e:
+            out.setdefault(int(e), [])
+            continue
+        for a, i in parse_chs(e):
+            out.setdefault(a, []).append((i, fmt or "int"))
+    return out
+
+
+def db_json(spec):
+    """the accessory database `spec` describes, as the JSON of GET /accessories (built here, by the harness)"""
+    accs = []
+    for aid, chars in sorted(parse_db(spec).items()):
+        info = {"iid": 1, "type": "3E", "characteristics": [
+            {"iid": 2, "type": "23", "perms": ["pr"], "format": "string", "value": f"accessory {aid}"},
+            {"iid": 3, "type": "20", "perms": ["pr"], "format": "string", "value": "harness"},
+            {"iid": 4, "type": "21", "perms": ["pr"], "format": "string", "value": "scaffold"},
+            {"iid": 5, "type": "30", "perms": ["pr"], "format": "string", "value": f"sn-{aid}"},
+            {"iid": 6, "type": "52", "perms": ["pr"], "format": "string", "value": "1.0.0"},
+            {"iid": 7, "type": "14", "perms": ["pw"], "format": "bool"}]}
+        svcs = [info]
+        if chars:
+            default = {"bool": False, "float": 0.0, "string": "", "tlv8": "", "data": ""}
+            svcs.append({"iid": 8, "type": "43", "characteristics": [
+                {"iid": i, "type": DB_TYPES[f], "perms": ["pr", "pw", "ev"], "format": f, "value": default.get(f, 0)} for i, f in dict(chars).items()]})
+        accs.append({"aid": aid, "services": svcs})
+    return accs
+
+
 async def scenario(loop, events, seed):
     rnd = random.Random(seed)
     net = simnet.Net(loop)
@@ -426,7 +503,7 @@ async def scenario(loop, events, seed):
     cut = {"on": False}
     auto_put = acc._handle
     style = {"w": None}   # how the accessory writes (token `wire:`); None = Content-Length messages, one write per burst
-    wstats = {"frames": 0, "chunked-replies": 0, "max-request-frames": 0}
+    wstats = {"frames": 0, "chunked-replies": 0, "max-request-frames": 0, "db-served": 0, "db-from-cache": 0, "db-loaded": 0}
 
     def answer(s, code, body=b""):
         """the answer to a PUT /characteristics, written the way the current `wire` says"""
@@ -457,10 +534,20 @@ async def scenario(loop, events, seed):
                 rows = [{"aid": c["aid"], "iid": c["iid"], "status": (-70406 if refuses(c["iid"]) else 0)} for c in d["characteristics"]]
                 return answer(s, b"207 Multi-Status", json.dumps({"characteristics": rows}).encode())
             return answer(s, b"204 No Content")
+        if target.startswith("/accessories") and method == "GET":
+            wstats["db-served"] += 1
+            return http(json.dumps({"accessories": served["db"]}).encode(), b"application/hap+json")
         return http(b"{}", b"application/hap+json")
     acc.responder = responder
+    served = {"db": []}   # the database the accessory serves on GET /accessories (the last `db:fetch` / `db:populate` token)
     ctrl = MagicMock()
     ctrl._char_cache = CharacteristicCacheMemory()
+    first_idx = next((n for n, e in enumerate(events) if not e.startswith("wire:")), -1)
+    first = events[first_idx] if first_idx >= 0 else ""
+    if first.startswith("db:cache:"):
+        # the characteristic cache of the controller already holds a database when the pairing is constructed (a restart of the process)
+        ctrl._char_cache.async_create_or_update_map(acc.ident.acc_id.decode(), 1, db_json(first.split(":", 2)[2]))
+        wstats["db-from-cache"] += 1
     lines, problems = [], []
     logs = {}      # listener id -> list of key lists
     vlogs = {}     # listener id -> list of [(key, value)] lists (what each call carried)
@@ -514,12 +601,31 @@ async def scenario(loop, events, seed):
                 problems.append(("call-raised", f"subscribe/unsubscribe raised {type(t.exception()).__name__}"))
 
         wanted_ref = set()  # what the caller has subscribed to and not successfully unsubscribed from (kept by the harness)
-        for ev in events:
+        for n_ev, ev in enumerate(events):
             f = ev.split(":", 1)
             k = f[0]
             if k == "wire":
                 # not an event of the history: from now on the accessory writes this way
                 style["w"] = parse_wire(f[1])
+                continue
+            if k == "db":
+                # not an event of the history either: from now on the pairing holds this accessory database
+                how, spec = f[1].split(":", 1)
+                if how == "cache" and n_ev == first_idx:
+                    continue   # loaded from the characteristic cache when the pairing was constructed
+                try:
+                    if how in ("fetch", "populate") and p.is_connected:
+                        served["db"] = db_json(spec)
+                        await asyncio.wait_for(p.list_accessories_and_characteristics() if how == "fetch" else p.async_populate_accessories_state(force_update=True), 60)
+                    else:
+                        p.restore_accessories_state(db_json(spec), 1, None)
+                    wstats["db-loaded"] += 1
+                except Exception as e:  # noqa: BLE001 - a database the accessory serves / the cache holds is valid input
+                    problems.append(("db-load-raised", f"{ev}: loading the accessory database raised {type(e).__name__}: {e}"))
+                await settle(loop)
+                if net.errors:
+                    problems.append(("callback-raised", f"after {ev}: {net.errors[0]}"))
+                    del net.errors[:]
                 continue
             if k in ("sub", "cutsub"):
                 wanted_ref |= set(parse_chs(f[1]))
@@ -693,7 +799,7 @@ async def overlap_scenario(loop, steps, seed):
     ctrl = MagicMock()
     ctrl._char_cache = CharacteristicCacheMemory()
     problems = []
-    stats = {"stable-checks": 0, "max-pending-calls": 0, "calls-overlapping": 0, "calls-cut": 0, "resub-overlapped": 0}
+    stats = {"stable-checks": 0, "max-pending-calls": 0, "calls-overlapping": 0, "calls-cut": 0, "resubscriptions-cut": 0, "resub-overlapped": 0}
     logs, vlogs = {1: [], 2: []}, {1: [], 2: []}
     evno = [0]
     ops = []
@@ -746,9 +852,16 @@ async def overlap_scenario(loop, steps, seed):
             pending = [o for o in ops if o["done"] is None]
             for o in pending:
                 o["disc"] = True
+            s_t = acc.sessions.get(t)
+            asked_t = {(a, i) for a, i, e in s_t.sub_log if e} if (s_t is not None and s_t.secure) else None
             if any(o["kind"] == "sub" for o in pending) or any(h[2] for h in held if h[0].t is t):
                 cut_seen = True
                 stats["calls-cut"] += 1
+            elif asked_t is not None and must_be_subscribed(ops) - asked_t:
+                # this session has not yet been asked for everything the callers are subscribed to: the re-subscription that follows its pair-verify is still
+                # on its way (its next request waits behind another request of the library, so the accessory has not seen it) - the disconnection cuts it off
+                cut_seen = True
+                stats["resubscriptions-cut"] += 1
             held[:] = [h for h in held if h[0].t is not t]
 
         def release(extra=b"", first=True):
@@ -1135,7 +1248,7 @@ def model_event(e):
 
 def model_line(events):
     # `wire:` tokens say how the accessory writes its bytes; the model's events are the messages, however they are written
-    return "sb.run " + " ".join(model_event(e).replace(":n", ":n").replace(" ", "") for e in events if not e.startswith("wire:"))
+    return "sb.run " + " ".join(model_event(e).replace(":n", ":n").replace(" ", "") for e in events if not e.startswith(("wire:", "db:")))
 
 
 ALPHA = ["sub:1.10,2.20,1.11", "sub:2.21", "sub:1.12,1.90", "unsub:1.10", "unsub:2.20,2.21", "cutsub:1.12", "drop", "conn", "ladd:1:n", "ladd:2:x", "ladd:3:rm", "ladd:4:add~5", "lrem:1",
@@ -1239,6 +1352,84 @@ def gen_random_wire(rng):
     return evs
 
 
+# ---- the pairing's accessory database vs. what the accessory sends events for (token `db:`)
+
+DB_HOWS = ("cache", "restore", "fetch", "populate")
+DB_SHAPES = {
+    "complete": "1.10-12,2.20-21",
+    "complete-typed": "1.10~bool,1.11~string,1.12~float,2.20~uint8,2.21~tlv8",
+    "aid-missing": "1.10-12",                  # accessory 2 was bridged after the database was cached
+    "aid-bare": "1.10,1.11,2",                 # accessory 2 is known, its service is not (added by a firmware update)
+    "iid-missing": "1.10~uint8,2.21~data",     # 1.11 and 2.20 are not known
+    "other": "3.10~string",                    # nothing the accessory sends events for is known
+    "none-listed": "-",                        # a database that lists no accessory
+}
+DB_BURSTS = ["c=2.20|c=1.10|c=1.11", "c=1.10|c=2.20|c=1.10", "c=1.10|c=1.11|c=2.20", "c=2.20", "c=1.11", "c=1.10,2.20|c=1.11", "c=1.11,1.10|c=2.20,1.10|c=1.11",
+             "c=1.10@vs|c=1.11@vb|c=2.20@vf", "c=1.10@vn|c=1.10@vhuge|c=1.11@vneg", "c=1.11@vx|c=1.10@ve|c=2.20@vs", "c=3.30|c=1.10|c=2.21", "c=1.10|empty|c=2.20@tc|c=1.11",
+             "c=1.12@vf|c=2.21@vx|c=1.12"]
+
+
+def gen_db_directed(rng, n):
+    """every way of loading a database x every shape of database (complete, typed, outdated in each way, foreign, empty) x bursts in which the characteristic the
+    database does not know comes first / in the middle / last / alone / in one EVENT message with a known one, and bursts whose values are of another type
+    than the database has on record; the database loaded before the connection, while connected, or replaced between two bursts"""
+    combos = [(how, shape, b) for how in DB_HOWS for shape in DB_SHAPES for b in range(len(DB_BURSTS))]
+    rng.shuffle(combos)
+    # whatever the sample: every (how, shape) pair and every burst at least once
+    core, seen_pairs, seen_b = [], set(), set()
+    for c in combos:
+        if (c[0], c[1]) not in seen_pairs or c[2] not in seen_b:
+            core.append(c)
+            seen_pairs.add((c[0], c[1]))
+            seen_b.add(c[2])
+    rest = [c for c in combos if c not in set(core)]
+    hists = []
+    for i, (how, shape, b) in enumerate((core + rest)[:max(n, len(core))]):
+        db = f"db:{how}:{DB_SHAPES[shape]}"
+        burst, other = DB_BURSTS[b], DB_BURSTS[(b + 1 + i) % len(DB_BURSTS)]
+        ls = [["ladd:1:n", "ladd:2:x"], ["ladd:1:n", "ladd:3:rm", "ladd:4:add~5"], ["ladd:1:n"]][i % 3]
+        sub = ["sub:1.10,1.11,2.20"] if i % 4 else ["sub:1.10,1.11", "sub:2.20,2.21"]
+        w = ["wire:" + random_wire(rng)] if i % 5 == 4 else []
+        form = i % 4
+        if form == 0:      # the database is there before the first connection
+            h = [db, "conn"] + ls + sub + w + [f"ev:{burst}", "ev:c=1.10", "drop", "conn", f"ev:{other}"]
+        elif form == 1:    # loaded while connected and subscribed
+            h = ["conn"] + ls + sub + [db] + w + [f"ev:{burst}", f"ev:{other}", "ev:c=1.10|c=1.11"]
+        elif form == 2:    # outdated first, refreshed between two bursts (or the other way round)
+            fresh = f"db:{rng.choice(DB_HOWS[1:])}:{DB_SHAPES['complete']}"
+            a, z = (db, fresh) if i % 8 < 4 else (fresh, db)
+            h = [a] + ls + ["conn"] + sub + w + [f"ev:{burst}", z, f"ev:{burst}", f"ev:{other}"]
+        else:              # subscribed while disconnected, database loaded in between, the re-subscription of the reconnect meets it
+            h = ls + sub + [db, "conn"] + w + [f"ev:{burst}", "cutsub:1.12", "conn", f"ev:{other}", "unsub:1.10", f"ev:{burst}"]
+        hists.append(h)
+    return hists
+
+
+def gen_db_random(rng):
+    """a random history with one to three databases loaded somewhere, events for characteristics no database knows and values of every JSON type"""
+    evs = []
+    for e in gen_random(rng):
+        if e.startswith("ev:"):
+            bodies = []
+            for b in e[3:].split("|"):
+                if b.startswith("c=") and "@" not in b:
+                    r = rng.random()
+                    if r < 0.35:
+                        b += "@" + rng.choice(VALUES)
+                    elif r < 0.5:
+                        b = "c=" + ",".join(f"{rng.choice([1, 2, 3])}.{rng.choice([10, 11, 20, 21, 30])}" for _ in range(rng.randrange(1, 3)))
+                bodies.append(b)
+            e = "ev:" + "|".join(bodies)
+        evs.append(e)
+    for j in range(rng.randrange(1, 4)):
+        if rng.random() < 0.7:
+            spec = rng.choice(list(DB_SHAPES.values()))
+        else:
+            spec = ",".join(sorted({f"{rng.choice([1, 1, 2, 3])}.{rng.choice([10, 11, 12, 20, 21, 30])}~{rng.choice(DB_FORMATS)}" for _ in range(rng.randrange(1, 6))}) + rng.choice([[], ["2"], ["4"]]))
+        evs.insert(0 if (j == 0 and rng.random() < 0.4) else rng.randrange(0, max(1, len(evs))), f"db:{rng.choice(DB_HOWS)}:{spec}")
+    return evs
+
+
 # ---- many subscriptions: the request that asks for all of them again does not fit one encrypted frame
 
 FIXED_MANY = [
@@ -1335,6 +1526,8 @@ def run_cases(ctx: Ctx, driver: Driver, cases):
             ctx.dist["kind:" + kind] += 1
             ctx.dist["wire-frames-written"] += wstats.get("frames", 0)
             ctx.dist["wire-chunked-replies"] += wstats.get("chunked-replies", 0)
+            for k_db in ("db-served", "db-from-cache", "db-loaded"):
+                ctx.dist[k_db] += wstats.get(k_db, 0)
             ctx.dist["max-frames-of-one-request"] = max(ctx.dist["max-frames-of-one-request"], wstats.get("max-request-frames", 0))
             if wstats.get("max-request-frames", 0) > 1:
                 ctx.dist["histories-with-a-multi-frame-request"] += 1
@@ -1380,6 +1573,1183 @@ def run_cases(ctx: Ctx, driver: Driver, cases):
     compare_with_model(ctx, "subs", cs, impl, lines, driver, canon=lambda s: " ; ".join(x.strip() for x in s.split(" ; ")))
 
 
+# ---------------------------------------------------------------------------------------------------------------
+# THE OTHER TRANSPORTS THAT HAVE AN EVENT PATH.  HAP over CoAP (Thread): the unpatched CoAPPairing / CoAPHomeKitConnection / EncryptionContext /
+# EventResource against the harness's own accessory; only aiocoap's Context is replaced (requests reach the accessory, which runs a real pair-verify
+# with harness.refacc and seals everything under the session keys; its event notifications are handed to the event resource the library registered
+# on the site it gave to aiocoap, the way aiocoap's server side does).
+#
+# steps:  cdb:<entries>             (first) the accessory's database: `10~bool,11~uint8,...` instance ids of accessory 1 with their format
+#         grow:<entries>            a firmware update adds characteristics: the accessory has (and notifies) them, the controller's copy is outdated
+#                                   (what exists keeps its format; records for characteristics the accessory does not have are not sent)
+#         pdb:<how>:<entries>       the pairing's own accessory database: restore = restore_accessories_state(these), fetch / populate = read from the accessory
+#         ladd:<id>:<kind> / lrem:<id>   listeners as in the IP histories
+#         sub:<iids> / unsub:<iids> / get:<iid>   public calls
+#         ev:<rec>|<rec>...         ONE event notification carrying these records; rec = <iid>=<value>: `v` a value of the characteristic's format,
+#                                   `s<n>` n bytes (string / data), `e` EMPTY (a record that is just its 5-byte header), `z` a value TLV of length zero
+#         dup                       the last notification arrives again (a retransmission): the accessory sent the event once
+#         junk                      a notification that is not the accessory's (does not authenticate)
+#         reboot                    the accessory loses its sessions (it answers 4.04 until the controller has verified again)
+
+COAP_FMT = {"bool": (0x01, 1), "uint8": (0x04, 1), "uint16": (0x06, 2), "uint32": (0x08, 4), "uint64": (0x0A, 8), "int": (0x10, 4), "float": (0x14, 4), "string": (0x19, None), "data": (0x1B, None)}
+COAP_DEFAULT_DB = "10~bool,11~uint8,12~string,13~data,14~float,15~uint16,16~int,17~uint32,18~uint64,19~string"
+
+
+def t8(tag, val):
+    """one TLV8 item (fragmented above 255 bytes) - the harness's own encoder"""
+    val = bytes(val)
+    if not val:
+        return bytes([tag, 0])
+    return b"".join(bytes([tag, len(val[o:o + 255])]) + val[o:o + 255] for o in range(0, len(val), 255))
+
+
+def parse_cdb(spec):
+    out = {}
+    for e in spec.split(","):
+        if e in ("", "-"):
+            continue
+        ids, _, fmt = e.partition("~")
+        lo, _, hi = ids.partition("-")
+        for i in range(int(lo), int(hi or lo) + 1):
+            out[i] = fmt or "uint8"
+    return out
+
+
+def coap_database(chars):
+    """the accessory database as the TLV8 body of a HAP-over-CoAP database read (encoded here, not by the library): accessory information
+    (name, iid 2) and one service (iid 8) with the given characteristics, secure read + write + events"""
+    def char(typ, iid, props, fmt):
+        return t8(0x13, t8(0x04, bytes([typ])) + t8(0x05, struct.pack("<H", iid)) + t8(0x0A, struct.pack("<H", props)) + t8(0x0C, struct.pack("<BbHBH", fmt, 0, 0x2700, 1, 0)))
+
+    def svc(typ, iid, cs):
+        return t8(0x15, t8(0x07, struct.pack("<H", iid)) + t8(0x06, bytes([typ])) + t8(0x14, b"\x00\x00".join(cs)))
+    svcs = [svc(0x3E, 1, [char(0x23, 2, 0x10, 0x19)])]
+    if chars:
+        svcs.append(svc(0x43, 8, [char(0x25 + (n % 90), iid, 0x10 | 0x20 | 0x80, COAP_FMT[fmt][0]) for n, (iid, fmt) in enumerate(sorted(chars.items()))]))
+    return t8(0x18, t8(0x19, t8(0x1A, struct.pack("<H", 1)) + t8(0x16, b"\x00\x00".join(svcs))))
+
+
+def coap_value(fmt, how, n):
+    """-> (raw value bytes or None for an EMPTY record, the value a listener must be handed or NOCHECK)"""
+    if how == "e":
+        return None, NOCHECK
+    if how[:1] in ("z", "s") and fmt not in ("string", "data"):
+        how = "v"   # a value of a fixed-size format has that size
+    if how == "z":
+        return b"", NOCHECK
+    if how.startswith("s"):
+        ln = int(how[1:])
+        text = (f"{n}:" + "abcdefghij" * (ln // 10 + 1))[:ln]
+        return text.encode(), (text if fmt == "string" and ln else NOCHECK)
+    if fmt == "bool":
+        return bytes([n % 2]), bool(n % 2)
+    if fmt in ("uint8", "uint16", "uint32", "uint64", "int"):
+        size = COAP_FMT[fmt][1]
+        v = (n * 37 + 1) % (1 << (8 * size - 1))
+        return v.to_bytes(size, "little"), v
+    if fmt == "float":
+        return struct.pack("<f", n + 0.5), n + 0.5
+    if fmt == "string":
+        return f"text {n}".encode(), f"text {n}"
+    return b"\x01\x01" + bytes([n % 256]), NOCHECK   # data / tlv8: how the bytes are presented to a listener is not the property's business
+
+
+class NoCheck:
+    def __repr__(self):
+        return "<any>"
+
+
+NOCHECK = NoCheck()
+
+
+class CoapSide:
+    """what the accessory holds for ONE endpoint of the controller (one aiocoap context): the pair-verify exchange and the session"""
+
+    def __init__(self, world, root):
+        self.w, self.root = world, root
+        self.va = None
+        self.keys = None          # (controller->accessory, accessory->controller, events)
+        self.rctr = self.wctr = self.ectr = 0
+        self.subs = set()         # instance ids this session was asked to notify
+        self.sub_log = []
+        self.shut = False
+        self.last_event = None
+
+    @staticmethod
+    def nonce(c):
+        return struct.pack("<4xQ", c)
+
+    def request(self, msg):
+        from types import SimpleNamespace
+        import aiocoap.error as cerr
+        fut = asyncio.get_running_loop().create_future()
+        if self.shut:
+            fut.set_exception(cerr.LibraryShutdown())
+        else:
+            try:
+                fut.set_result(self._respond(msg))
+            except Exception as e:  # noqa: BLE001 - the accessory could not make sense of a request: it does not answer (the library times out)
+                self.w.notes.append(f"the CoAP accessory could not process a request: {type(e).__name__}: {e}")
+        return SimpleNamespace(response=fut)
+
+    async def shutdown(self):
+        self.shut = True
+
+    def _respond(self, msg):
+        from types import SimpleNamespace
+        from aiocoap.numbers.codes import Code
+        w = self.w
+        path = "/".join(msg.opt.uri_path)
+        payload = bytes(msg.payload)
+        if path == "2":
+            req = refacc.untlv(payload)
+            if req.get(6) == b"\x01":
+                self.keys, self.subs = None, set()
+                self.va = refacc.VerifyAccessory(w.ident, w.rb(32))
+                return SimpleNamespace(code=Code.CHANGED, payload=refacc.tlv(self.va.m2(req.get(3, b""))))
+            if req.get(6) == b"\x03" and self.va is not None:
+                va, self.va = self.va, None
+                if not va.check_m3(list(req.items())):
+                    return SimpleNamespace(code=Code.CHANGED, payload=refacc.tlv([(6, b"\x04"), (7, b"\x02")]))
+                self.keys = va.keys()
+                self.rctr = self.wctr = self.ectr = 0
+                w.verified += 1
+                return SimpleNamespace(code=Code.CHANGED, payload=refacc.tlv([(6, b"\x04")]))
+            return SimpleNamespace(code=Code.BAD_REQUEST, payload=b"")
+        if self.keys is None:
+            return SimpleNamespace(code=Code.NOT_FOUND, payload=b"")
+        try:
+            plain = ChaCha20Poly1305(self.keys[0]).decrypt(self.nonce(self.rctr), payload, b"")
+        except InvalidTag:
+            w.unauth += 1
+            return SimpleNamespace(code=Code.NOT_FOUND, payload=b"")
+        self.rctr += 1
+        out, off = b"", 0
+        while off + 7 <= len(plain):
+            _c, op, tid, iid, ln = struct.unpack("<BBBHH", plain[off:off + 7])
+            off += 7 + ln
+            st, rb = 0, b""
+            if op == 0x09:
+                rb = coap_database(w.chars)
+                w.db_reads += 1
+            elif op == 0x03:
+                if iid == 2:
+                    rb = t8(0x01, b"scaffold")
+                elif iid in w.chars:
+                    rb = t8(0x01, w.current.get(iid) or coap_value(w.chars[iid], "v", 0)[0])
+                else:
+                    st = 4
+            elif op in (0x0B, 0x0C):
+                if iid in w.chars:
+                    self.sub_log.append((iid, op == 0x0B))
+                    (self.subs.add if op == 0x0B else self.subs.discard)(iid)
+                else:
+                    st = 4
+            elif op != 0x02:
+                st = 1
+            out += struct.pack("<BBBH", 0x02, tid, st, len(rb)) + rb
+        enc = ChaCha20Poly1305(self.keys[1]).encrypt(self.nonce(self.wctr), out, b"")
+        self.wctr += 1
+        return SimpleNamespace(code=Code.CHANGED, payload=enc)
+
+
+class CoapWorld:
+    def __init__(self, rnd, chars):
+        self.rb = lambda n: bytes(rnd.randrange(256) for _ in range(n))
+        self.ident = refacc.Identity(self.rb, acc_id=b"12:34:56:00:02:0C")
+        self.chars = dict(chars)   # iid -> format: what the accessory has NOW
+        self.current = {}          # iid -> raw value it reported last
+        self.sides = []
+        self.notes = []
+        self.verified = self.unauth = self.db_reads = 0
+
+
+async def coap_scenario(loop, steps, seed):
+    """one CoAP history -> (problems, stats)"""
+    from types import SimpleNamespace
+    import aiohomekit.controller.coap.connection as coapc
+    from aiocoap.numbers.codes import Code
+    from aiohomekit.controller.coap.pairing import CoAPPairing
+    rnd = random.Random(seed)
+    first = steps[0] if steps else ""
+    w = CoapWorld(rnd, parse_cdb(first[4:] if first.startswith("cdb:") else COAP_DEFAULT_DB))
+    problems = []
+    stats = {"notifications": 0, "records": 0, "empty-records": 0, "empty-last": 0, "unknown-to-controller": 0, "values-checked": 0, "verifies": 0, "replies-valid": 0, "replies-other": 0}
+    logs, vlogs, kinds, removers, cb_ids = {}, {}, {}, {}, {}
+    evno = [0]
+
+    class FakeContext:
+        @staticmethod
+        async def create_server_context(root, bind=None, **kw):
+            await asyncio.sleep(0.01)
+            side = CoapSide(w, root)
+            w.sides.append(side)
+            return side
+
+        @staticmethod
+        async def create_client_context(*a, **kw):
+            await asyncio.sleep(0.01)
+            side = CoapSide(w, None)
+            return side
+
+    ctrl = MagicMock()
+    ctrl._char_cache = CharacteristicCacheMemory()
+    with mock.patch.object(coapc, "Context", FakeContext):
+        p = CoAPPairing(ctrl, dict(w.ident.pairing_data(hosts=("fd00::2",), port=5683, connection="CoAP")))
+
+        def make_listener(lid, kind):
+            logs[lid], vlogs[lid], kinds[lid] = [], [], kind
+
+            def cb(ev):
+                logs[lid].append(sorted(ev.keys()))
+                vlogs[lid].append(seen_values(ev))
+                if kind == "x":
+                    raise ValueError("listener boom")
+                if kind == "rm":
+                    removers[lid]()
+                if kind.startswith("add~"):
+                    k2 = int(kind[4:])
+                    if k2 not in logs:
+                        make_listener(k2, "n")
+            shape = lid % 3
+            reg = functools.partial(lambda inner, ev: inner(ev), cb) if shape == 1 else (CallableListener(cb) if shape == 2 else cb)
+            cb_ids[reg] = lid
+            removers[lid] = p.dispatcher_connect(reg)
+
+        async def call(what, coro):
+            """a public call, awaited to its end (every request of the history is answered at once or not at all: 60 s cover the library's time-outs)"""
+            try:
+                await asyncio.wait_for(coro, 60)
+                return True
+            except asyncio.TimeoutError:
+                problems.append(("call-hangs", f"{what} did not return within 60 s"))
+            except Exception as e:  # noqa: BLE001
+                if rebooted["now"]:
+                    w.notes.append(f"{what.split(':')[0]} raised {type(e).__name__} (the accessory had lost its sessions)")
+                else:
+                    problems.append(("call-raised", f"{what} raised {type(e).__name__}: {e} - the accessory answered every request"))
+            return False
+
+        def event_target():
+            side = w.sides[-1] if w.sides else None
+            if side is None or side.shut or side.keys is None or side.root is None or () not in getattr(side.root, "_resources", {}):
+                return None, None
+            return side, side.root._resources[()]
+
+        wanted_ref = set()
+        rebooted = {"now": False, "since-check": False}
+        for step in steps:
+            k, _, arg = step.partition(":")
+            before_active = active_ids(p, cb_ids)
+            before_len = {lid: len(logs[lid]) for lid in logs}
+            sent = None
+            if k == "cdb":
+                continue
+            elif k == "grow":
+                for iid, fmt in parse_cdb(arg).items():
+                    w.chars.setdefault(iid, fmt)   # new characteristics only: what exists keeps its format
+            elif k == "refmt":
+                for iid, fmt in parse_cdb(arg).items():   # (ungated probes only) a firmware update CHANGES the format of a characteristic
+                    w.chars[iid] = fmt
+                    w.current.pop(iid, None)
+            elif k == "pdb":
+                how, _, spec = arg.partition(":")
+                if how == "restore":
+                    try:
+                        p.restore_accessories_state(db_json(",".join(f"1.{i}~{f}" for i, f in parse_cdb(spec).items()) or "1"), 1, None)
+                    except Exception as e:  # noqa: BLE001
+                        problems.append(("db-load-raised", f"{step}: restore_accessories_state raised {type(e).__name__}: {e}"))
+                else:
+                    await call(step, p.list_accessories_and_characteristics() if how == "fetch" else p.async_populate_accessories_state(force_update=True))
+            elif k == "ladd":
+                lid, kind = arg.split(":")
+                if int(lid) not in logs:
+                    make_listener(int(lid), kind)
+            elif k == "lrem":
+                if int(arg) in removers:
+                    removers[int(arg)]()
+            elif k in ("sub", "unsub"):
+                chs = [(1, i) for i in parse_cdb(arg)]
+                if k == "unsub":
+                    wanted_ref -= set(chs)
+                ok = await call(step, p.subscribe(chs) if k == "sub" else p.unsubscribe(chs))
+                if ok and k == "sub":
+                    wanted_ref |= set(chs)
+            elif k == "get":
+                await call(step, p.get_characteristics([(1, int(arg))]))
+            elif k == "reboot":
+                for side in w.sides:
+                    side.keys, side.subs = None, set()
+                rebooted["now"] = rebooted["since-check"] = True
+            elif k in ("ev", "dup", "junk"):
+                side, res = event_target()
+                if side is not None and p.is_connected:
+                    recs = []
+                    if k == "ev":
+                        plain = b""
+                        for r in arg.split("|"):
+                            iid, _, how = r.partition("=")
+                            iid = int(iid)
+                            if iid not in w.chars:
+                                continue   # the accessory has no such characteristic: nothing to notify
+                            evno[0] += 1
+                            raw, expect = coap_value(w.chars[iid], how or "v", evno[0])
+                            body = b"" if raw is None else t8(0x01, raw)
+                            plain += struct.pack("<BHH", 0, iid, len(body)) + body
+                            known = p.connection.info.find_characteristic_by_iid(iid) is not None if getattr(p.connection, "info", None) is not None else False
+                            recs.append(((1, iid), expect if known else NOCHECK))
+                            if raw is not None:
+                                w.current[iid] = raw
+                            stats["records"] += 1
+                            stats["empty-records"] += raw is None
+                            stats["unknown-to-controller"] += not known
+                        if plain:
+                            stats["empty-last"] += raw is None   # (the record sent last)
+                            payload = ChaCha20Poly1305(side.keys[2]).encrypt(side.nonce(side.ectr), plain, b"")
+                            side.ectr += 1
+                            side.last_event = payload
+                            sent = recs
+                        else:
+                            payload = None
+                    elif k == "dup":
+                        payload = side.last_event
+                        sent = []
+                    else:
+                        payload = w.rb(rnd.choice([16, 21, 40]))
+                        sent = []
+                    if payload is not None:
+                        stats["notifications"] += 1
+                        try:
+                            reply = await asyncio.wait_for(res.render_put(SimpleNamespace(payload=payload, code=Code.PUT)), 60)
+                            code = getattr(reply, "code", None)
+                            stats["replies-valid" if code == Code.VALID else "replies-other"] += 1
+                        except Exception as e:  # noqa: BLE001 - aiocoap would answer 5.00 and log the traceback
+                            if k == "ev":
+                                problems.append(("event-handler-raised", f"the event resource raised {type(e).__name__}: {e} while taking the notification {arg}"))
+                            else:
+                                w.notes.append(f"the event resource raised {type(e).__name__} on a notification that is not the accessory's ({k})")
+                    else:
+                        sent = None
+            else:
+                raise ValueError(step)
+            await settle(loop)
+            # ---- oracles: the harness's own record of what the accessory sent vs. every listener's call log
+            if sent is not None:
+                for lid in before_active:
+                    got = logs[lid][before_len[lid]:]
+                    exp_recs = sent[:1] if kinds[lid] == "rm" else sent
+                    exp = [[key] for key, _ in exp_recs]
+                    if got != exp:
+                        sig = "event-lost" if len(got) < len(exp) else ("event-duplicated" if len(got) > len(exp) else "event-wrong")
+                        if k != "ev":
+                            sig = "event-duplicated" if k == "dup" else "event-invented"
+                        problems.append((sig, f"after {step}: listener {lid} ({kinds[lid]}) got {got} but the accessory sent {exp}"))
+                    else:
+                        gotv = vlogs[lid][before_len[lid]:]
+                        bad = [(g, (key, v)) for g, (key, v) in zip(gotv, exp_recs) if v is not NOCHECK and g != [(key, v)]]
+                        stats["values-checked"] += sum(1 for _, v in exp_recs if v is not NOCHECK)
+                        if bad:
+                            problems.append(("event-wrong", f"after {step}: listener {lid} ({kinds[lid]}) was handed {short(bad[0][0])} for the record {short(bad[0][1])} the accessory sent"))
+                if not p.is_connected:
+                    problems.append(("connection-broken-by-event", f"after {step}: the pairing reports no session any more"))
+            elif k not in ("ev", "dup", "junk"):
+                for lid in before_active:
+                    if logs[lid][before_len[lid]:] and k not in ("get", "pdb"):
+                        problems.append(("event-invented", f"after {step}: listener {lid} was called with {logs[lid][before_len[lid]:]} although the accessory sent no event"))
+            if k in ("sub", "unsub", "get", "pdb") and p.is_connected and w.sides and w.sides[-1].keys is not None:
+                rebooted["now"] = False
+                if rebooted["since-check"]:
+                    # a public call went through on a session made after the accessory lost the old one: everything must have been asked for again
+                    rebooted["since-check"] = False
+                    stats["resubscribe-checks"] = stats.get("resubscribe-checks", 0) + 1
+                    reg = {(1, i) for i in w.sides[-1].subs}
+                    if not wanted_ref <= reg:
+                        problems.append(("not-resubscribed", f"after {step}: on the session made after the accessory lost the old one it is registered for {show_chs(reg)}; the caller's subscriptions {show_chs(wanted_ref - reg)} were not requested again"))
+        try:
+            await asyncio.wait_for(p.shutdown(), 60)
+        except Exception as e:  # noqa: BLE001
+            w.notes.append(f"shutdown() raised {type(e).__name__}")
+        await settle(loop)
+    stats["verifies"] = w.verified
+    stats["notes"] = w.notes
+    return problems, stats
+
+
+COAP_LISTENERS = [["ladd:1:n", "ladd:2:x"], ["ladd:1:n", "ladd:3:rm", "ladd:4:add~5"], ["ladd:1:n"], ["ladd:2:x", "ladd:1:n", "ladd:6:n"]]
+
+
+def gen_coap_directed(rng, n):
+    """notifications of 1..4 records with the EMPTY value at every position (and nowhere), values of every format and of lengths around the TLV fragment size,
+    several notifications in a row, with a retransmission / a foreign notification / an accessory reboot between them"""
+    iids = sorted(parse_cdb(COAP_DEFAULT_DB))
+    hists = []
+    shapes = []
+    for count in (1, 2, 3, 4):
+        for empties in itertools.product("ve", repeat=count):
+            shapes.append(list(empties))
+    shapes += [["z"], ["v", "z"], ["z", "v", "e"], ["s0", "v"], ["v", "s1"], ["s254", "s255"], ["s256", "v", "s600"], ["e", "s255", "e"]]
+    rng.shuffle(shapes)
+    i = 0
+    while len(hists) < max(n, len(shapes)):
+        shape = shapes[i % len(shapes)]
+        recs = []
+        for how in shape:
+            if how.startswith("s") or how == "z":
+                iid = rng.choice([12, 13, 19])
+            else:
+                iid = rng.choice(iids)
+            recs.append(f"{iid}={how}")
+        ev = "ev:" + "|".join(recs)
+        pre = COAP_LISTENERS[i % len(COAP_LISTENERS)] + [rng.choice(["sub:10-19", "sub:10,11,12", "sub:10-14"])]
+        if i % 3 == 1:
+            pre = pre + ["sub:15-19"] if "sub:10-19" not in pre else pre
+        tail = [["ev:10=v"], ["ev:11=v|12=v", "dup", "ev:10=v"], ["junk", "ev:10=v|13=e"], ["ev:12=e", "ev:12=v"], ["unsub:10", "ev:11=v|14=e"], ["reboot", "get:11", "ev:11=v|15=e"]][i % 6]
+        pdb = [[], ["pdb:fetch:"], ["pdb:restore:10~bool,11~uint8"], ["pdb:populate:"]][(i // 2) % 4]
+        grow = ["grow:30~uint8,31~string", "ev:30=v|10=v|31=e"] if i % 5 == 3 else []
+        hists.append(pdb[:1] * (i % 2) + pre + pdb[:1] * (1 - i % 2) + [ev] + tail + grow)
+        i += 1
+    return hists
+
+
+def gen_coap_random(rng):
+    chars = {}
+    for iid in rng.sample(range(10, 60), rng.randrange(3, 14)):
+        chars[iid] = rng.choice(list(COAP_FMT))
+    iids = sorted(chars)
+    steps = ["cdb:" + ",".join(f"{i}~{chars[i]}" for i in iids)]
+    extra = {}
+
+    def record():
+        pool = iids + sorted(extra)
+        iid = rng.choice(pool)
+        fmt = chars.get(iid) or extra[iid]
+        r = rng.random()
+        if r < 0.3:
+            how = "e"
+        elif r < 0.38 and fmt in ("string", "data"):
+            how = "z"
+        elif r < 0.6 and fmt in ("string", "data"):
+            how = "s" + str(rng.choice([0, 1, 2, 17, 100, 254, 255, 256, 300, 511, 700]))
+        else:
+            how = "v"
+        return f"{iid}={how}"
+    for _ in range(rng.randrange(4, 22)):
+        r = rng.random()
+        some = ",".join(str(i) for i in rng.sample(iids, rng.randrange(1, min(5, len(iids)) + 1)))
+        if r < 0.16:
+            steps.append("sub:" + some)
+        elif r < 0.22:
+            steps.append("unsub:" + some)
+        elif r < 0.34:
+            lid = rng.randrange(1, 7)
+            steps.append(f"ladd:{lid}:" + rng.choice(["n", "n", "x", "rm", f"add~{rng.randrange(1, 9)}"]))
+        elif r < 0.38:
+            steps.append(f"lrem:{rng.randrange(1, 7)}")
+        elif r < 0.42:
+            steps.append("get:" + str(rng.choice(iids)))
+        elif r < 0.47:
+            steps.append(rng.choice(["pdb:fetch:", "pdb:populate:", "pdb:restore:" + ",".join(f"{i}~{chars[i]}" for i in rng.sample(iids, rng.randrange(1, len(iids))))]))
+        elif r < 0.51:
+            new = rng.randrange(60, 90)
+            extra.setdefault(new, rng.choice(list(COAP_FMT)))
+            steps.append(f"grow:{new}~{extra[new]}")
+        elif r < 0.55:
+            steps.append("reboot")
+        elif r < 0.60:
+            steps.append("dup")
+        elif r < 0.64:
+            steps.append("junk")
+        else:
+            steps.append("ev:" + "|".join(record() for _ in range(rng.choice([1, 1, 2, 2, 3, 4, 6]))))
+    return steps
+
+
+def coap_cases(ctx, mult=1):
+    rng = ctx.rng
+    cases = [(h, "coap-directed") for h in gen_coap_directed(rng, ctx.budget(120, 600) * mult)]
+    cases += [(gen_coap_random(rng), "coap-random") for _ in range(ctx.budget(250, 5000) * mult)]
+    return cases
+
+
+# ---------------------------------------------------------------------------------------------------------------
+# HAP over BLE, the event path of a DISCONNECTED accessory: encrypted broadcast notifications (HAP-BLE 7.4.7.2).  The unpatched BleController /
+# BlePairing; only the radio is replaced: advertisements are handed to the scanner's detection callback (BleController._device_detected), connection
+# attempts fail as for a device out of range.  The pairing is loaded by BleController.load_pairing from a characteristic cache that holds the accessory
+# database, the state number and the broadcast key an earlier process life negotiated.
+#
+# steps:  bdb:<entries>          (first) the accessory's database: `10~bool,11~uint8,...` instance ids of accessory 1 with their format
+#         adv                    a regular advertisement carrying the accessory's current state number
+#         bc:<iid>[:<times>]     the characteristic changes: the accessory's state number goes up by one and it broadcasts the value sealed under the broadcast
+#                                key; the scanner hears that advertisement <times> times (an accessory repeats it for seconds) - ONE event
+#         miss:<n>               n changes whose broadcasts nobody hears (out of range for a moment)
+#         rebc                   the broadcast heard last is heard once more, late
+#         foreign                a broadcast with this accessory's advertising identifier that is not sealed under its key
+#         ladd / lrem / sub      as in the other histories (subscribe while disconnected sends nothing)
+
+BLE_DEFAULT_DB = "10~bool,11~uint8,12~uint16,13~uint32,14~int,15~float"
+
+
+def ble_value(fmt, n):
+    """-> (the 8 value bytes of a broadcast, the value a listener must be handed)"""
+    if fmt == "bool":
+        return bytes([n % 2]).ljust(8, b"\0"), bool(n % 2)
+    if fmt == "float":
+        return struct.pack("<f", n + 0.25).ljust(8, b"\0"), n + 0.25
+    if fmt == "int":
+        v = (n * 7919) % (1 << 31) * (-1 if n % 2 else 1)
+        return struct.pack("<i", v).ljust(8, b"\0"), v
+    size = {"uint8": 1, "uint16": 2, "uint32": 4, "uint64": 8}[fmt]
+    v = (n * 7919 + 3) % (1 << (8 * size))
+    return v.to_bytes(size, "little").ljust(8, b"\0"), v
+
+
+def ble_radio(did, data):
+    """what bleak's scanner hands to its detection callback for one advertisement"""
+    a = MagicMock()
+    a.manufacturer_data = {76: data}
+    a.rssi = -50
+    d = MagicMock()
+    d.name = "dev"
+    d.address = did.upper()
+    return d, a
+
+
+async def ble_scenario(loop, steps, seed):
+    try:
+        import bleak  # noqa: F401
+        import aiohomekit.controller.ble.pairing as blep
+        from aiohomekit.controller.ble.controller import BleController
+        from bleak.exc import BleakError
+    except Exception as e:  # noqa: BLE001 - this installation has no BLE support
+        return [], {"notes": [f"BLE not available: {type(e).__name__}"]}
+    rnd = random.Random(seed)
+    first = steps[0] if steps else ""
+    chars = parse_cdb(first[4:] if first.startswith("bdb:") else BLE_DEFAULT_DB)
+    rb = lambda n: bytes(rnd.randrange(256) for _ in range(n))  # noqa: E731
+    did = "12:34:56:00:03:0E"
+    adv_id = bytes.fromhex(did.replace(":", ""))
+    key = rb(32)
+    acc = {"gsn": rnd.choice([1, 2, 7, 100, 4000, 65000]), "last": None, "gap": 0}   # gap: changes since the controller last heard a state number
+    problems, notes = [], []
+    stats = {"broadcasts": 0, "advertisements-heard": 0, "repeats": 0, "missed": 0, "connection-attempts": 0}
+    logs, vlogs, kinds, removers, cb_ids = {}, {}, {}, {}, {}
+    evno = [0]
+
+    async def out_of_range(*a, **kw):
+        stats["connection-attempts"] += 1
+        raise BleakError("Device with address %s was not found (out of range)" % did)
+
+    pd = {"AccessoryPairingID": did, "AccessoryLTPK": rb(32).hex(), "iOSPairingId": "ctrl-1", "iOSDeviceLTSK": rb(32).hex(), "iOSDeviceLTPK": rb(32).hex(), "AccessoryAddress": did, "Connection": "BLE"}
+    cache = CharacteristicCacheMemory()
+    db = db_json(",".join(f"1.{i}~{f}" for i, f in chars.items()))
+    for a in db:
+        for s in a["services"]:
+            for c in s["characteristics"]:
+                if c["iid"] in chars:
+                    c["broadcast_events"] = True
+                    c["disconnected_events"] = True
+    cache.async_create_or_update_map(did, 1, db, key.hex(), acc["gsn"])
+    with mock.patch.object(blep, "establish_connection", out_of_range):
+        ctl = BleController(char_cache=cache)
+        p = ctl.load_pairing("alias", pd)
+        if p is None:
+            return [("pairing-not-loaded", "BleController.load_pairing returned None for a BLE pairing record")], stats
+
+        def make_listener(lid, kind):
+            logs[lid], vlogs[lid], kinds[lid] = [], [], kind
+
+            def cb(ev):
+                logs[lid].append(sorted(ev.keys()))
+                vlogs[lid].append(seen_values(ev))
+                if kind == "x":
+                    raise ValueError("listener boom")
+                if kind == "rm":
+                    removers[lid]()
+                if kind.startswith("add~"):
+                    k2 = int(kind[4:])
+                    if k2 not in logs:
+                        make_listener(k2, "n")
+            shape = lid % 3
+            reg = functools.partial(lambda inner, ev: inner(ev), cb) if shape == 1 else (CallableListener(cb) if shape == 2 else cb)
+            cb_ids[reg] = lid
+            removers[lid] = p.dispatcher_connect(reg)
+
+        def hear(data):
+            stats["advertisements-heard"] += 1
+            try:
+                ctl._device_detected(*ble_radio(did, data))
+            except Exception as e:  # noqa: BLE001 - bleak logs an exception of its detection callback and goes on scanning
+                return f"{type(e).__name__}: {e}"
+            return None
+
+        def sealed(gsn, iid, raw, k=None):
+            blob = ChaCha20Poly1305(k or key).encrypt(struct.pack("<4xQ", gsn), struct.pack("<HH", gsn, iid) + raw, adv_id)
+            return bytes([0x11, 0x36]) + adv_id + blob[:12] + blob[12:16]
+
+        for step in steps:
+            k, _, arg = step.partition(":")
+            before_active = active_ids(p, cb_ids)
+            before_len = {lid: len(logs[lid]) for lid in logs}
+            sent, raised = [], None
+            if k == "bdb":
+                continue
+            elif k == "adv":
+                raised = hear(bytes([0x06, 0x31, 0x00]) + adv_id + struct.pack("<HHBB", 5, acc["gsn"], 1, 2) + b"\x01\x02\x03\x04")
+                acc["gap"] = 0
+            elif k == "bc":
+                iid, _, times = arg.partition(":")
+                iid = int(iid)
+                if acc["gsn"] < 65500 and iid in chars:
+                    acc["gsn"] += 1
+                    evno[0] += 1
+                    raw, expect = ble_value(chars[iid], evno[0])
+                    acc["last"] = sealed(acc["gsn"], iid, raw)
+                    sent = [((1, iid), expect)]
+                    stats["broadcasts"] += 1
+                    for _ in range(int(times or 1)):
+                        raised = raised or hear(acc["last"])
+                    stats["repeats"] += int(times or 1) - 1
+                    acc["gap"] = 0
+            elif k == "miss":
+                # the library looks 98 state numbers ahead before it gives up on broadcasts and polls instead (which needs a connection): stay inside
+                if acc["gsn"] + int(arg) < 65500 and acc["gap"] + int(arg) <= 90:
+                    acc["gsn"] += int(arg)
+                    acc["gap"] += int(arg)
+                    stats["missed"] += int(arg)
+            elif k == "rebc":
+                if acc["last"] is not None:
+                    raised = hear(acc["last"])
+            elif k == "foreign":
+                raised = hear(sealed(acc["gsn"] + 1, rnd.choice(sorted(chars)), rb(8), k=rb(32)))
+            elif k == "ladd":
+                lid, kind = arg.split(":")
+                if int(lid) not in logs:
+                    make_listener(int(lid), kind)
+            elif k == "lrem":
+                if int(arg) in removers:
+                    removers[int(arg)]()
+            elif k == "sub":
+                try:
+                    await asyncio.wait_for(p.subscribe([(1, i) for i in parse_cdb(arg)]), 60)
+                except Exception as e:  # noqa: BLE001
+                    problems.append(("call-raised", f"{step} raised {type(e).__name__}: {e}"))
+            else:
+                raise ValueError(step)
+            await settle(loop)
+            if raised:
+                problems.append(("scanner-callback-raised", f"after {step}: the scanner's detection callback raised {raised}"))
+            for lid in before_active:
+                got = logs[lid][before_len[lid]:]
+                exp_recs = sent[:1] if kinds[lid] == "rm" else sent
+                exp = [[key_] for key_, _ in exp_recs]
+                if got != exp:
+                    sig = "event-lost" if len(got) < len(exp) else ("event-duplicated" if len(got) > len(exp) and sent or k == "rebc" else ("event-invented" if not sent else "event-wrong"))
+                    problems.append((sig, f"after {step}: listener {lid} ({kinds[lid]}) got {got} but the accessory broadcast {exp} (state number {acc['gsn']})"))
+                else:
+                    gotv = vlogs[lid][before_len[lid]:]
+                    bad = [(g, (key_, v)) for g, (key_, v) in zip(gotv, exp_recs) if g != [(key_, v)]]
+                    if bad:
+                        problems.append(("event-wrong", f"after {step}: listener {lid} ({kinds[lid]}) was handed {short(bad[0][0])} for the broadcast {short(bad[0][1])}"))
+        try:
+            await asyncio.wait_for(p.shutdown(), 60)
+        except Exception as e:  # noqa: BLE001
+            notes.append(f"shutdown() raised {type(e).__name__}")
+        await settle(loop)
+    stats["notes"] = notes
+    return problems, stats
+
+
+def gen_ble_history(rng, i):
+    chars = parse_cdb(BLE_DEFAULT_DB)
+    steps = []
+    if i % 3 == 2:
+        chars = {iid: rng.choice(["bool", "uint8", "uint16", "uint32", "uint64", "int", "float"]) for iid in rng.sample(range(10, 40), rng.randrange(2, 8))}
+        steps.append("bdb:" + ",".join(f"{a}~{f}" for a, f in sorted(chars.items())))
+    iids = sorted(chars)
+    steps += COAP_LISTENERS[i % len(COAP_LISTENERS)]
+    if rng.random() < 0.6:
+        steps.append("adv")
+    if rng.random() < 0.6:
+        steps.append("sub:" + ",".join(str(x) for x in rng.sample(iids, rng.randrange(1, len(iids) + 1))))
+    for _ in range(rng.randrange(3, 14)):
+        r = rng.random()
+        if r < 0.5:
+            steps.append(f"bc:{rng.choice(iids)}" + rng.choice(["", "", ":2", ":3", ":7"]))
+        elif r < 0.6:
+            steps.append("adv")
+        elif r < 0.7:
+            steps.append(f"miss:{rng.choice([1, 1, 1, 2, 2, 5, 5, 40, 90])}")
+        elif r < 0.82:
+            steps.append("rebc")
+        elif r < 0.84:
+            steps.append("foreign")
+        elif r < 0.94:
+            steps.append(f"ladd:{rng.randrange(1, 7)}:" + rng.choice(["n", "n", "x", "rm", f"add~{rng.randrange(1, 9)}"]))
+        else:
+            steps.append(f"lrem:{rng.randrange(1, 7)}")
+    return steps
+
+
+def ble_cases(ctx, mult=1):
+    rng = ctx.rng
+    return [(gen_ble_history(rng, i), "ble-broadcast") for i in range(ctx.budget(150, 4000) * mult)]
+
+
+# ---------------------------------------------------------------------------------------------------------------
+# HAP over BLE, the event path of a CONNECTED accessory: GATT indications -> the library reads the characteristic -> listeners.  The unpatched
+# BleController / BlePairing (loaded through load_pairing, discovered through an advertisement at the scanner callback); bleak's establish_connection
+# hands out a GATT link to the harness's own accessory, which runs a real pair-verify (harness.refacc) and seals every PDU under the session keys.
+#
+# steps:  gdb:<entries>          (first) the accessory's database
+#         sub:<iids> / get:<iid> / pop   public calls (get / pop make the connection when there is none; subscribe alone never does)
+#         wait                   3 s pass (the library starts GATT notifications 1.5 s after the last subscribe / reconnect)
+#         notify:<iid>[:<n>]     the characteristic changes n times in a row and the accessory indicates each change (zero-length indication) - if the
+#                                controller enabled indications for it on this link; the library may fold a burst into fewer reads
+#         drop                   the link is lost (bleak delivers the disconnected callback)
+#         ladd / lrem            listeners
+
+GATT_DEFAULT_DB = "10~bool,11~uint8,12~uint16,13~uint32,14~int,15~float,16~string"
+
+
+def gatt_value(fmt, n):
+    if fmt == "string":
+        return f"text {n}".encode(), f"text {n}"
+    raw, v = ble_value(fmt, n)
+    return raw[:{"bool": 1, "uint8": 1, "uint16": 2, "uint32": 4, "uint64": 8, "int": 4, "float": 4}[fmt]], v
+
+
+class GattHandle:
+    max_write_without_response_size = None
+
+    def __init__(self, iid, uuid, verify):
+        self.iid, self.handle, self.uuid, self.verify = iid, iid, uuid, verify
+        self.properties = ["read", "write", "indicate"]
+
+
+class GattLink:
+    """stands in for the bleak client of ONE GATT connection; the other end is the harness's accessory"""
+
+    def __init__(self, acc, callback):
+        self.acc, self.callback = acc, callback
+        self.address = acc["did"]
+        self.is_connected = True
+        self.services = []
+        self.va = None
+        self.keys = None
+        self.rctr = self.wctr = 0
+        self.partial, self.pending, self.notify = {}, {}, {}
+
+    def _check(self):
+        if not self.is_connected:
+            from bleak.exc import BleakError
+            raise BleakError("Not connected")
+
+    async def get_characteristic(self, service_type, char_type, iid=None):
+        verify = str(char_type).upper().startswith("0000004E")
+        return GattHandle(12 if iid is None and verify else iid, str(char_type), verify)
+
+    async def get_characteristic_iid(self, char):
+        return char.iid
+
+    def determine_fragment_size(self, overhead, handle=None):
+        return 155 - overhead
+
+    async def write_gatt_char(self, handle, data, response=None):
+        self._check()
+        self._rx(handle, bytes(data))
+
+    async def read_gatt_char(self, handle):
+        self._check()
+        q = self.pending.get(handle.iid)
+        return bytearray(q.pop(0) if q else struct.pack("<BBB", 2, 0, 6))
+
+    async def start_notify(self, handle, callback):
+        self._check()
+        self.notify[handle.iid] = callback
+        self.acc["notify-enabled"] += 1
+
+    async def stop_notify(self, handle):
+        self.notify.pop(handle.iid, None)
+
+    async def clear_cache(self):
+        return True
+
+    async def disconnect(self):
+        self.lose()
+
+    def lose(self):
+        if self.is_connected:
+            self.is_connected = False
+            self.notify = {}
+            try:
+                self.callback(self)
+            except Exception as e:  # noqa: BLE001
+                self.acc["notes"].append(f"disconnected callback raised {type(e).__name__}")
+
+    @staticmethod
+    def nonce(c):
+        return struct.pack("<LQ", 0, c)
+
+    def _rx(self, h, data):
+        acc = self.acc
+        secured = False
+        if not h.verify:
+            if self.keys is None:
+                self.pending[h.iid] = [struct.pack("<BBB", 2, data[2] if len(data) > 2 else 0, 5)]   # insufficient authentication
+                acc["plain"] += 1
+                return
+            try:
+                data = ChaCha20Poly1305(self.keys[0]).decrypt(self.nonce(self.rctr), data, b"")
+            except InvalidTag:
+                self.pending[h.iid] = [struct.pack("<BBB", 2, 0, 5)]
+                acc["unauth"] += 1
+                return
+            self.rctr += 1
+            secured = True
+        if data and data[0] & 0x80:
+            buf = self.partial.get(h.iid)
+            if buf is None:
+                return
+            buf["body"] += data[2:]
+        else:
+            if len(data) < 5:
+                self.pending[h.iid] = [struct.pack("<BBB", 2, 0, 6)]
+                return
+            _c, op, tid, _iid = struct.unpack("<BBBH", data[:5])
+            buf = self.partial[h.iid] = {"op": op, "tid": tid, "len": struct.unpack("<H", data[5:7])[0] if len(data) >= 7 else 0, "body": data[7:]}
+        if len(buf["body"]) < buf["len"]:
+            return
+        del self.partial[h.iid]
+        status, body = 0, b""
+        if h.verify:
+            req = refacc.untlv(refacc.untlv(buf["body"]).get(1, b"")) if buf["op"] == 2 else {}
+            if req.get(6) == b"\x01":
+                # (a resume request is answered like any other M1: this accessory keeps no resumable sessions)
+                self.keys = None
+                self.va = refacc.VerifyAccessory(acc["ident"], acc["rb"](32))
+                body = refacc.tlv([(1, refacc.tlv(self.va.m2(req.get(3, b""))))])
+            elif req.get(6) == b"\x03" and self.va is not None:
+                va, self.va = self.va, None
+                if va.check_m3(list(req.items())):
+                    self.keys = va.keys()
+                    self.rctr = self.wctr = 0
+                    acc["verified"] += 1
+                    body = refacc.tlv([(1, refacc.tlv([(6, b"\x04")]))])
+                else:
+                    body = refacc.tlv([(1, refacc.tlv([(6, b"\x04"), (7, b"\x02")]))])
+            else:
+                status = 6
+        elif buf["op"] == 3:
+            iid = h.iid
+            if iid == 2:
+                body = refacc.tlv([(1, b"scaffold")])
+            elif iid in acc["chars"]:
+                acc["reads"] += 1
+                body = refacc.tlv([(1, acc["current"].get(iid) or gatt_value(acc["chars"][iid], 0)[0])])
+            else:
+                status = 6
+        elif buf["op"] not in (2, 4, 5, 7):
+            status = 6
+        room = 155 - (16 if secured else 0)
+        if not body:
+            frags = [struct.pack("<BBB", 2, buf["tid"], status)]
+        else:
+            frags, rest = [struct.pack("<BBBH", 2, buf["tid"], status, len(body)) + body[:room - 5]], body[room - 5:]
+            while rest:
+                frags.append(bytes([0x82, buf["tid"]]) + rest[:room - 2])
+                rest = rest[room - 2:]
+        if secured:
+            for i, f in enumerate(frags):
+                frags[i] = ChaCha20Poly1305(self.keys[1]).encrypt(self.nonce(self.wctr), f, b"")
+                self.wctr += 1
+        self.pending[h.iid] = frags
+
+
+def gatt_db_json(chars):
+    db = db_json(",".join(f"1.{i}~{f}" for i, f in chars.items()))
+    db[0]["services"].append({"iid": 40, "type": "55", "characteristics": [
+        {"iid": 41, "type": "4C", "perms": ["pr", "pw"], "format": "tlv8"}, {"iid": 12, "type": "4E", "perms": ["pr", "pw"], "format": "tlv8"},
+        {"iid": 43, "type": "4F", "perms": ["pr"], "format": "uint8"}, {"iid": 44, "type": "50", "perms": ["pr", "pw"], "format": "tlv8"}]})
+    return db
+
+
+async def gatt_scenario(loop, steps, seed):
+    try:
+        import bleak  # noqa: F401
+        import aiohomekit.controller.ble.pairing as blep
+        from aiohomekit.controller.ble.controller import BleController
+    except Exception as e:  # noqa: BLE001 - this installation has no BLE support
+        return [], {"notes": [f"BLE not available: {type(e).__name__}"]}
+    rnd = random.Random(seed)
+    first = steps[0] if steps else ""
+    chars = parse_cdb(first[4:] if first.startswith("gdb:") else GATT_DEFAULT_DB)
+    rb = lambda n: bytes(rnd.randrange(256) for _ in range(n))  # noqa: E731
+    did = "12:34:56:00:04:0F"
+    ident = refacc.Identity(rb, acc_id=did.encode())
+    acc = {"did": did, "ident": ident, "rb": rb, "chars": chars, "current": {}, "notes": [], "verified": 0, "reads": 0, "plain": 0, "unauth": 0, "notify-enabled": 0}
+    links = []
+    problems = []
+    stats = {"indications": 0, "bursts-folded": 0, "not-enabled": 0, "links": 0, "resubscribe-checks": 0}
+    logs, vlogs, kinds, removers, cb_ids = {}, {}, {}, {}, {}
+    evno = [0]
+
+    async def establish(device, name, disconnected_callback=None, *a, **kw):
+        await asyncio.sleep(0.05)
+        link = GattLink(acc, disconnected_callback)
+        links.append(link)
+        return link
+
+    cache = CharacteristicCacheMemory()
+    cache.async_create_or_update_map(did, 1, gatt_db_json(chars), None, 1)
+    with mock.patch.object(blep, "establish_connection", establish):
+        ctl = BleController(char_cache=cache)
+        p = ctl.load_pairing("alias", dict(ident.pairing_data(connection="BLE"), AccessoryAddress=did))
+        if p is None:
+            return [("pairing-not-loaded", "BleController.load_pairing returned None for a BLE pairing record")], stats
+        # the scanner hears the accessory's advertisement (state number 1, configuration number 1): the pairing now knows the device
+        ctl._device_detected(*ble_radio(did, bytes([0x06, 0x31, 0x00]) + bytes.fromhex(did.replace(":", "")) + struct.pack("<HHBB", 5, 1, 1, 2) + b"\x01\x02\x03\x04"))
+
+        def make_listener(lid, kind):
+            logs[lid], vlogs[lid], kinds[lid] = [], [], kind
+
+            def cb(ev):
+                logs[lid].append(sorted(ev.keys()))
+                vlogs[lid].append(seen_values(ev))
+                if kind == "x":
+                    raise ValueError("listener boom")
+                if kind == "rm":
+                    removers[lid]()
+                if kind.startswith("add~"):
+                    k2 = int(kind[4:])
+                    if k2 not in logs:
+                        make_listener(k2, "n")
+            shape = lid % 3
+            reg = functools.partial(lambda inner, ev: inner(ev), cb) if shape == 1 else (CallableListener(cb) if shape == 2 else cb)
+            cb_ids[reg] = lid
+            removers[lid] = p.dispatcher_connect(reg)
+
+        async def call(what, coro):
+            try:
+                await asyncio.wait_for(coro, 120)
+                return True
+            except asyncio.TimeoutError:
+                problems.append(("call-hangs", f"{what} did not return within 120 s"))
+            except Exception as e:  # noqa: BLE001
+                problems.append(("call-raised", f"{what} raised {type(e).__name__}: {e} - the accessory answered every request and the link was up"))
+            return False
+
+        wanted_ref = set()
+        for step in steps:
+            k, _, arg = step.partition(":")
+            before_active = active_ids(p, cb_ids)
+            before_len = {lid: len(logs[lid]) for lid in logs}
+            n_links = len(links)
+            cur = links[-1] if links and links[-1].is_connected else None
+            burst = None
+            if k == "gdb":
+                continue
+            elif k == "ladd":
+                lid, kind = arg.split(":")
+                if int(lid) not in logs:
+                    make_listener(int(lid), kind)
+            elif k == "lrem":
+                if int(arg) in removers:
+                    removers[int(arg)]()
+            elif k == "sub":
+                chs = [(1, i) for i in parse_cdb(arg) if i in chars]
+                if await call(step, p.subscribe(chs)):
+                    wanted_ref |= set(chs)
+            elif k == "get":
+                await call(step, p.get_characteristics([(1, int(arg))]))
+            elif k == "pop":
+                await call(step, p.async_populate_accessories_state(force_update=True))
+            elif k == "wait":
+                await asyncio.sleep(3.0)
+            elif k == "drop":
+                if cur is not None:
+                    cur.lose()
+            elif k == "notify":
+                iid, _, times = arg.partition(":")
+                iid, times = int(iid), int(times or 1)
+                if cur is not None and iid in chars:
+                    if iid in cur.notify:
+                        for _ in range(times):
+                            evno[0] += 1
+                            raw, expect = gatt_value(chars[iid], evno[0])
+                            acc["current"][iid] = raw
+                            stats["indications"] += 1
+                            try:
+                                cur.notify[iid](iid, bytearray())
+                            except Exception as e:  # noqa: BLE001 - bleak logs an exception of a notification callback and goes on
+                                problems.append(("notify-callback-raised", f"after {step}: the GATT notification callback raised {type(e).__name__}: {e}"))
+                        burst = ((1, iid), expect, times)
+                    else:
+                        stats["not-enabled"] += 1
+            else:
+                raise ValueError(step)
+            await settle(loop)
+            if burst is not None:
+                # the read the indication triggers is a request / response on the link: let it run to its end
+                await asyncio.sleep(0.5)
+                await settle(loop)
+                key_, expect, times = burst
+                for lid in before_active:
+                    got = logs[lid][before_len[lid]:]
+                    gotv = vlogs[lid][before_len[lid]:]
+                    most = 1 if kinds[lid] == "rm" else times
+                    if not got:
+                        problems.append(("event-lost", f"after {step}: listener {lid} ({kinds[lid]}) was not called although the accessory indicated {times} change(s) of {key_} on a link with indications enabled"))
+                    elif len(got) > most:
+                        problems.append(("event-duplicated", f"after {step}: listener {lid} ({kinds[lid]}) was called {len(got)} times {got} for {times} indicated change(s) of {key_}"))
+                    elif any(g != [key_] for g in got):
+                        problems.append(("event-wrong", f"after {step}: listener {lid} ({kinds[lid]}) got {got} for indicated change(s) of {key_}"))
+                    elif gotv[-1] != [(key_, expect)] and kinds[lid] != "rm":
+                        problems.append(("event-wrong", f"after {step}: listener {lid} ({kinds[lid]}) was last handed {short(gotv[-1])} but the value the accessory holds since the indication is {expect!r}"))
+                    if got and len(got) < times:
+                        stats["bursts-folded"] += 1
+                if cur is not None and not cur.is_connected:
+                    problems.append(("connection-broken-by-event", f"after {step}: the library dropped the link while taking the indication"))
+            stats["links"] += len(links) - n_links
+            if k == "wait" and links and links[-1].is_connected and links[-1].keys is not None:
+                # 3 s after whatever happened last on an established session: indications must be enabled for everything the caller subscribed to
+                stats["resubscribe-checks"] += 1
+                reg = {(1, i) for i in links[-1].notify}
+                if not wanted_ref <= reg:
+                    sig = "not-resubscribed" if len(links) > 1 else "subscription-lost"
+                    problems.append((sig, f"after {step}: on link no. {len(links)} indications are enabled for {show_chs(reg)}; the caller's subscriptions {show_chs(wanted_ref - reg)} are missing"))
+        try:
+            await asyncio.wait_for(p.shutdown(), 120)
+        except Exception as e:  # noqa: BLE001
+            acc["notes"].append(f"shutdown() raised {type(e).__name__}")
+        await settle(loop)
+    stats.update({"verifies": acc["verified"], "reads": acc["reads"], "requests-in-the-clear": acc["plain"], "requests-not-authentic": acc["unauth"], "notes": acc["notes"]})
+    return problems, stats
+
+
+def gen_gatt_history(rng, i):
+    chars = parse_cdb(GATT_DEFAULT_DB)
+    steps = []
+    if i % 3 == 2:
+        chars = {iid: rng.choice(["bool", "uint8", "uint16", "uint32", "int", "float", "string"]) for iid in rng.sample(range(10, 40), rng.randrange(2, 8))}
+        steps.append("gdb:" + ",".join(f"{a}~{f}" for a, f in sorted(chars.items())))
+    iids = sorted(chars)
+    steps += COAP_LISTENERS[i % len(COAP_LISTENERS)]
+    some = lambda: ",".join(str(x) for x in rng.sample(iids, rng.randrange(1, len(iids) + 1)))  # noqa: E731
+    if i % 2:
+        steps += ["get:" + str(rng.choice(iids)), "sub:" + some(), "wait"]
+    else:
+        steps += ["sub:" + some(), rng.choice(["get:" + str(rng.choice(iids)), "pop"]), "wait"]
+    for _ in range(rng.randrange(3, 12)):
+        r = rng.random()
+        if r < 0.5:
+            steps.append(f"notify:{rng.choice(iids)}" + rng.choice(["", "", "", ":2", ":3"]))
+        elif r < 0.6:
+            steps += ["sub:" + some(), "wait"]
+        elif r < 0.72:
+            steps += ["drop", rng.choice(["get:" + str(rng.choice(iids)), "pop"]), "wait"]
+        elif r < 0.78:
+            steps.append("get:" + str(rng.choice(iids)))
+        elif r < 0.84:
+            steps.append("wait")
+        elif r < 0.94:
+            steps.append(f"ladd:{rng.randrange(1, 7)}:" + rng.choice(["n", "n", "x", "rm", f"add~{rng.randrange(1, 9)}"]))
+        else:
+            steps.append(f"lrem:{rng.randrange(1, 7)}")
+    return steps
+
+
+def gatt_cases(ctx, mult=1):
+    rng = ctx.rng
+    return [(gen_gatt_history(rng, i), "ble-gatt") for i in range(ctx.budget(150, 4000) * mult)]
+
+
+def run_transport(ctx: Ctx, cases, stream, scenario_fn):
+    """CoAP / BLE histories: implementation-level oracles only (the Lean automaton's delivery step is transport independent and is tied to the IP histories)"""
+    loop = simnet.VLoop()
+    asyncio.set_event_loop(loop)
+    minimized = {}
+
+    def once(steps, seed):
+        out = loop.run_until_complete(scenario_fn(loop, steps, seed))
+        pend = [t for t in asyncio.all_tasks(loop) if not t.done()]
+        for t in pend:
+            t.cancel()
+        if pend:
+            loop.run_until_complete(asyncio.gather(*pend, return_exceptions=True))
+        return out
+    try:
+        for i, (steps, kind, *rest) in enumerate(cases):
+            seed = rest[0] if rest else ctx.seed * 6151 + i
+            case = {"stream": stream, "events": steps, "seed": seed}
+            try:
+                problems, stats = once(steps, seed)
+            except Exception as e:  # noqa: BLE001 - misbehaving library code must not stop the harness
+                problems, stats = [("harness-tripped", f"the scenario stopped with {type(e).__name__}: {e}")], {}
+            ctx.evaluations += 1
+            ctx.nontrivial.add((stream,) + tuple(steps))
+            ctx.dist["kind:" + kind] += 1
+            for e in steps:
+                ctx.dist[f"{stream}:" + e.split(":")[0]] += 1
+            for note in stats.pop("notes", []):
+                ctx.dist[f"{stream}-note:" + note[:90]] += 1
+            for k, v in stats.items():
+                ctx.dist[f"{stream}-{k}"] += v
+            seen = set()
+            for sig, text in problems:
+                if sig in seen:
+                    continue
+                seen.add(sig)
+                vcase = dict(case)
+                if sig not in minimized and len(minimized) < 4:
+                    def still(evs, sig=sig):
+                        try:
+                            pr, _ = once(evs, seed)
+                        except Exception:  # noqa: BLE001
+                            return False
+                        return any(s2 == sig for s2, _ in pr)
+                    small = shrink_list(steps, still)
+                    minimized[sig] = small
+                    vcase["minimized_events"] = small
+                    text = text + f" [minimal history: {' '.join(small)}]"
+                ctx.violation(f"{stream}/{sig}", text, vcase)
+            if i in (0, len(cases) - 1):
+                ctx.sample(case)
+    finally:
+        asyncio.set_event_loop(None)
+        loop.close()
+
+
+TRANSPORT_STREAMS = {"coap": (coap_cases, coap_scenario), "ble-broadcast": (ble_cases, ble_scenario), "ble-gatt": (gatt_cases, gatt_scenario)}
+
+TRANSPORT_PROBES = [
+    # (stream, history, what it shows on the library as it is) - NOT gated: outside the assumptions above, recorded in the evidence notes when they reproduce
+    ("coap", ["cdb:10~uint8,11~uint8", "ladd:1:n", "sub:10,11", "refmt:10~uint32", "ev:10=v|11=v"],
+     "CoAP: a characteristic whose format changed (uint8 -> uint32, firmware update) after the controller read the database: struct.error escapes EventResource.render_put and every record of that notification is lost"),
+]
+
+
+def transport_probes(ctx: Ctx):
+    loop = simnet.VLoop()
+    asyncio.set_event_loop(loop)
+    try:
+        for stream, steps, what in TRANSPORT_PROBES:
+            try:
+                problems, _ = loop.run_until_complete(TRANSPORT_STREAMS[stream][1](loop, steps, 1))
+            except Exception as e:  # noqa: BLE001
+                problems = [("probe-tripped", type(e).__name__)]
+            pend = [t for t in asyncio.all_tasks(loop) if not t.done()]
+            for t in pend:
+                t.cancel()
+            if pend:
+                loop.run_until_complete(asyncio.gather(*pend, return_exceptions=True))
+            ctx.dist["probe:" + ("reproduced" if problems else "not-reproduced")] += 1
+            if problems:
+                ctx.notes.append(f"observation (not gated) - {what}; history {' '.join(steps)}; seen: {sorted({sig for sig, _ in problems})}")
+    finally:
+        asyncio.set_event_loop(None)
+        loop.close()
+
+
 def cases_for(ctx):
     rng = ctx.rng
     cases = [(c["events"], "corpus") for c in load_corpus(ID)]
@@ -1402,15 +2772,28 @@ def more_cases(ctx, mult=1):
     return cases
 
 
+def db_cases(ctx, mult=1):
+    rng = ctx.rng
+    cases = [(evs, "database-directed") for evs in gen_db_directed(rng, ctx.budget(150, 364) * mult)]
+    cases += [(gen_db_random(rng), "database-random") for _ in range(ctx.budget(150, 3000) * mult)]
+    return cases
+
+
 def run(ctx: Ctx, driver: Driver):
-    run_cases(ctx, driver, cases_for(ctx))
-    run_overlap(ctx, overlap_cases(ctx), driver)
+    base, overlap = cases_for(ctx), overlap_cases(ctx)   # (drawn in this order, before the later streams, so that a seed keeps its sample)
+    run_cases(ctx, driver, base + db_cases(ctx))
+    run_overlap(ctx, overlap, driver)
+    for stream, (gen_cases, scenario_fn) in TRANSPORT_STREAMS.items():
+        run_transport(ctx, gen_cases(ctx), stream, scenario_fn)
+    transport_probes(ctx)
 
 
 def replay(ctx: Ctx, driver: Driver, case):
     n = len(ctx.violations)
     if case.get("stream") == "overlap":
         run_overlap(ctx, [(case["events"], "replay", case.get("seed", 0))])
+    elif case.get("stream") in TRANSPORT_STREAMS:
+        run_transport(ctx, [(case["events"], "replay", case.get("seed", 0))], case["stream"], TRANSPORT_STREAMS[case["stream"]][1])
     else:
         run_cases(ctx, driver, [(case["events"], "replay", case["seed"])] if "seed" in case else [(case["events"], "replay")])
     return [v["signature"] for v in ctx.violations[n:]]
@@ -1422,4 +2805,9 @@ def search(ctx: Ctx, driver: Driver, broken):
     if not ctx.violations:
         run_cases(ctx, driver, more_cases(ctx, 4))
     if not ctx.violations:
+        run_cases(ctx, driver, db_cases(ctx, 4))
+    if not ctx.violations:
         run_overlap(ctx, overlap_cases(ctx, 4))
+    for stream, (gen_cases, scenario_fn) in TRANSPORT_STREAMS.items():
+        if not ctx.violations:
+            run_transport(ctx, gen_cases(ctx, 4), stream, scenario_fn)
